@@ -40,6 +40,16 @@ CLAIMED = {
          "No counterexample among generated operation sequences: every ephemeral port handed out (bind :0 for UDP and TCP listeners, outgoing connect) lay in the configured range and was not in use by a UDP socket, TCP listener or live stream of that host; explicit binds failed with AddrInUse exactly when the same protocol held the port; ports were reusable after drop, failed/cancelled connects and crash+bounce (the allocator never reported exhaustion while the model had a free port); names resolved to distinct, stable addresses inside the documented subnet with reverse lookup inverting the map and regex lookups selecting exactly the matching names, in v4 and v6 mode.",
          "Port-0 requests are only issued while the model has a free port (exhaustion is a documented panic); double registration of a name (documented panic) is not generated.",
          "DESIGN.md §6 C15"),
+ "C12": ("exploration",
+         "property-based testing (proptest) of generated server timelines and concurrent connectors against a nonce/address bijection oracle and, for fixed latency, an exact step-level model of the listener",
+         "No counterexample among generated scenarios (bind / start accepting / listener drop / re-bind timelines; 1-7 connectors on the listener's own host via its address and 127.0.0.1 and on two remote hosts; give-ups; dead ports; unowned addresses; wildcard and localhost binds; v4/v6; fixed and ranged latency; holds and partitions around the handshake; random host order): every successful connect was matched by exactly one accepted stream with mirrored addresses, accepted streams without a connector occurred only for connectors that gave up, connects without a reachable listener failed with ConnectionRefused promptly, no connect stayed pending, accept order followed arrival order, and after all streams were dropped no host counted an established stream.",
+         "Events in the very step of a bind/drop/re-bind or within 2 steps of a give-up are admitted either way; accept order asserted only for remote SYNs delivered >= 2 steps apart under fixed latency; pending requests stay far below tcp_capacity.",
+         "DESIGN.md §6 C12"),
+ "C20": ("exploration",
+         "property-based testing (proptest) with a hand-polled manual scheduler: generated interleavings of trigger tasks and test actions against a registry-list model, plus a Sim sub-check of the filesystem corruption hook",
+         "No counterexample among generated interleavings of 1-4 hand-polled trigger tasks with barrier creation, wait, handle drop, barrier drop and task cancellation over all three reactions and overlapping value-set conditions: every matching trigger went to the earliest-created live matching barrier and only to it, wait() reported exactly the model queue in order, Suspend held the task until the handle was dropped and released it on its next poll, Noop never blocked, Panic panicked the triggering code, unmatched triggers returned at once and were reported nowhere; corruption events of shim reads inside a Sim reached Barrier<FsCorruption> exactly once each.",
+         "Panic messages are those pinned by the crate's tests; a Suspend trigger whose barrier is dropped before wait() reported it is outside the property; io_uring ring reads do not fire the hook and are outside the property.",
+         "DESIGN.md §6 C20"),
 }
 
 PENDING_REASON = "check not built yet in this round (planned, see DESIGN.md §6); not claimed until its check exists and has been shown silent on the unchanged tree"
